@@ -842,6 +842,7 @@ def val_getitem(it, v, idx, node):
             return r
         r = Val(v.term, space=Space("slice", parent=v.space, how="slice"), pos_of=v.pos_of)
         r.slice_of = (v, idx)
+        it.record("index", "slice", [v, idx], {}, node)  # the term stays the element-wise value; the bounds are in the event
         return r
     if isinstance(idx, Seq) and idx.kind == "tuple" and len(idx.items) == 2 and isinstance(idx.items[0], SliceV) and idx.items[0].is_full() \
             and (is_pyconst(idx.items[1]) or getattr(idx.items[1], "is_scalar_index", False)):
